@@ -217,6 +217,24 @@ def C18(tier, seed):
                            "close / reset only when empty, checkpoints reset, lock only with liquidity, locked positions untouchable, transfer keeps the lock, bundle bitmap = existing bundled positions"}
 
 
+def C19(tier, seed):
+    gen = [{"name": "mint_cases", "module": "MintAdmissionModel", "cfg": "MintAdmissionModel.cfg"}]
+    jobs = []
+    shards, sample = (4, 700) if tier == "quick" else (16, 100000)
+    for s_ in range(shards):
+        jobs.append({"name": f"mints_{s_}", "args": ["mints", "--seed", str(seed * 100 + s_), "--cases", "@mint_cases@", "--sample", str(sample)], "tlc_timeout": 7200})
+    jobs += matrix_jobs("matrix_", tier, seed, "0", "0", 0, 0, shards_q=1, shards_t=2)
+    jobs += hist_jobs("hist_spl_", seed, 2 if tier == "quick" else 8, 4 if tier == "quick" else 40, 150, "spl")
+    jobs += hist_jobs("hist_af_", seed, 1 if tier == "quick" else 4, 4 if tier == "quick" else 40, 150, "t22", ["--adaptive", "1"])
+    return {"active": ["C19"], "drivers": jobs, "gen": gen, "models": [], "exhaustive": tier != "quick",
+            "must_exercise": {"initialize_pool_v2": 20, "initialize_reward_v2": 10, "initialize_pool_with_adaptive_fee": 5, "set_fee_rate": 3, "set_protocol_fee_rate": 3, "swap": 20},
+            "explanation": "TLC enumerates Token-2022 mint shapes (ordered extension sequences up to length 3 incl. account-level, group and unknown types; freeze authority; default account state; "
+                           "truncated TLV; badge present / absent / other config / other mint / not program-owned) and checks the admission table's own sanity; the harness builds each mint as real bytes "
+                           "and executes initialize_pool_v2 / initialize_pool_with_adaptive_fee / initialize_reward_v2 (+ v1) for real; TLC requires ok => Admitted (module WpMintAdmission) on the projected "
+                           "mint and badge state. ParamsInBounds (rates, price bounds, spacing, canonical mint order, adaptive-constant validity) is evaluated on every projected state of these runs, of the "
+                           "setter-bound probes (every setter at bound-1, bound, bound+1, max; every validity rule of the adaptive constants violated in turn) and of random histories that push the price to the bounds"}
+
+
 def C16(tier, seed):
     drivers = hist_jobs("hist_t22fee_", seed, 5 if tier == "quick" else 16, 4 if tier == "quick" else 40, 200 if tier == "quick" else 300, "t22fee")
     drivers += fn_jobs("tfee", tier, seed, 400, 8000, shards_q=2, shards_t=8)
@@ -277,4 +295,4 @@ def C08(tier, seed):
     return p
 
 
-PLANS = {"C01": C01, "C02": C02, "C03": C03, "C04": C04, "C10": C10, "C14": C14, "C15": C15, "C16": C16, "C17": C17, "C18": C18, "C05": C05, "C06": C06, "C07": C07, "C11": C11, "C12": C12, "C13": C13, "C08": C08, "C09": C09}
+PLANS = {"C01": C01, "C02": C02, "C03": C03, "C04": C04, "C10": C10, "C14": C14, "C15": C15, "C16": C16, "C17": C17, "C18": C18, "C19": C19, "C05": C05, "C06": C06, "C07": C07, "C11": C11, "C12": C12, "C13": C13, "C08": C08, "C09": C09}
